@@ -67,6 +67,15 @@ def verify_root(trusted_current_root_metadata, untrusted_new_root_metadata):
             '"root".'
         )
 
+    if (
+        "root" not in trusted_current_root_metadata["signed"]["delegations"]
+        or "root" not in untrusted_new_root_metadata["signed"]["delegations"]
+    ):
+        raise ValueError(
+            'Expected root metadata that delegates to "root".  One or both '
+            'pieces of metadata provided list no delegation for "root".'
+        )
+
     # Extract rules for root from old, trusted version of root.
     root_expectations = trusted_current_root_metadata["signed"]["delegations"]["root"]
     expected_threshold = root_expectations["threshold"]
